@@ -8,6 +8,6 @@ mkdir -p work/logs evidence
 if [ -f harness/src/props/c13.rs ]; then
   ( cd harness && RUSTFLAGS="-Zsanitizer=address -Cdebug-assertions=on -Coverflow-checks=off" \
       cargo +nightly build --release --offline --target x86_64-unknown-linux-gnu \
-      --target-dir /verif/work/target-asan )
+      --target-dir "$(pwd)/work/target-asan" )
 fi
 echo "setup done"
